@@ -20,11 +20,12 @@ CONSTANTS Cfgs,        \* set of threshold configurations [id, lw, lc, ewn, ecn,
           DevNoTruncOnQuery,    \* deviation: State() rates the stored samples without dropping expired ones
           DevNoCap,             \* deviation: MaxSamples cap not applied
           DevHealthNotChecked,  \* deviation: set of probe kinds whose gate is missing
-          DevDegradedPasses     \* deviation: gate rejects only "unavailable"
+          DevDegradedPasses,    \* deviation: gate rejects only "unavailable"
+          DevGateHoisted        \* deviation: produce reads the rating once per request instead of once per partition
 VARIABLES cfg, now, samples, state, recent, ret, probe, nops, hist
 vars == <<cfg, now, samples, state, recent, ret, probe, nops, hist>>
 
-PW == INSTANCE S3HealthProps WITH new <- {}, all <- {}, probe <- [is |-> FALSE]   \* window arithmetic only
+PW == INSTANCE S3HealthProps WITH new <- {}, all <- {}, probes <- {}   \* window arithmetic only
 Sum3(win) == PW!Summary(win)
 
 Rate3(c, n, tot, ec) ==
@@ -40,7 +41,8 @@ Cap(s) == IF DevNoCap THEN s ELSE PW!LastN(s, MaxSamples)
 MaxLat == CHOOSE m \in Lats : \A x \in Lats : x <= m
 
 NoObs == [is |-> FALSE, o |-> [cfg |-> "", n |-> 0, tot |-> 0, ec |-> 0, st |-> "healthy"]]
-NoProbe == [is |-> FALSE, kind |-> "", health |-> "healthy", acked |-> FALSE, data |-> FALSE, code |-> 0]
+NoProbe == <<>>      \* probe = sequence of [kind, health, acked, data, code], one per partition of the request
+BpCode(st) == IF st = "degraded" THEN 7 ELSE -1
 ObsOf(c, t, rec, st) == LET s == Sum3(PW!InWindow(rec, t, Window, MaxSamples))
                         IN [cfg |-> c.id, n |-> s.n, tot |-> s.tot, ec |-> s.ec, st |-> st]
 
@@ -82,17 +84,43 @@ Probe(kind) ==
   /\ LET pass == \/ kind \in DevHealthNotChecked
                  \/ state' = "healthy"
                  \/ (DevDegradedPasses /\ state' = "degraded")
-     IN probe' = [is |-> TRUE, kind |-> kind, health |-> state',
-                  acked |-> pass /\ kind = "produce", data |-> pass /\ kind = "fetch",
-                  code |-> IF pass THEN 0 ELSE IF state' = "degraded" THEN 7 ELSE -1]
+     IN probe' = << [kind |-> kind, health |-> state',
+                    acked |-> pass /\ kind = "produce", data |-> pass /\ kind = "fetch",
+                    code |-> IF pass THEN 0 ELSE BpCode(state')] >>
   /\ ret' = [is |-> TRUE, o |-> ObsOf(cfg, now, recent, state')]
   /\ nops' = nops + 1
   /\ hist' = Append(hist, [a |-> "Probe", kind |-> kind])
   /\ UNCHANGED <<cfg, now, recent>>
 
+\* One Produce request for two partitions whose first partition's flush fails in S3: uploadFlush starts the segment and
+\* the index upload concurrently, so nerr = 1 or 2 failed operations are recorded (the second upload may be cancelled
+\* before it starts) before the handler reaches the second partition, which must be gated on the NEW rating.
+Produce2(nerr) ==
+  /\ nops < MaxOps /\ "produce" \in Kinds
+  /\ LET s0 == IF DevNoTruncOnQuery THEN samples ELSE Trunc(samples, now)
+         st0 == RateOf(cfg, s0)
+         pass1 == st0 = "healthy" \/ "produce" \in DevHealthNotChecked \/ (DevDegradedPasses /\ st0 = "degraded")
+         bad == [ts |-> now, lat |-> 0, err |-> TRUE]
+         add(q, k) == IF k = 0 THEN q ELSE Trunc(Cap(Append(IF k = 2 THEN Trunc(Cap(Append(q, bad)), now) ELSE q, bad)), now)
+         s1 == IF pass1 THEN add(s0, nerr) ELSE s0
+         st1 == RateOf(cfg, s1)
+         pass2 == IF DevGateHoisted THEN pass1
+                  ELSE st1 = "healthy" \/ "produce" \in DevHealthNotChecked \/ (DevDegradedPasses /\ st1 = "degraded")
+         rec1 == IF pass1 THEN PW!LastN(recent \o [i \in 1..nerr |-> bad], MaxSamples) ELSE recent
+     IN /\ samples' = s1 /\ state' = st1 /\ recent' = rec1
+        /\ probe' = << [kind |-> "produce", health |-> st0, acked |-> FALSE, data |-> FALSE,
+                        code |-> IF pass1 THEN BpCode(st1) ELSE BpCode(st0)],       \* flush failed: backpressureErrorCode()
+                       [kind |-> "produce", health |-> st1, acked |-> pass2, data |-> FALSE,
+                        code |-> IF pass2 THEN 0 ELSE BpCode(st1)] >>
+        /\ ret' = [is |-> TRUE, o |-> ObsOf(cfg, now, rec1, st1)]
+  /\ nops' = nops + 1
+  /\ hist' = Append(hist, [a |-> "Produce2", nerr |-> nerr])
+  /\ UNCHANGED <<cfg, now>>
+
 Next == \/ \E lat \in Lats, err \in BOOLEAN : Record(lat, err)
         \/ Tick \/ Query
         \/ \E k \in Kinds : Probe(k)
+        \/ \E k \in {1, 2} : Produce2(k)
 Spec == Init /\ [][Next]_vars
 
 \* every window summary that can occur, rated by the (possibly deviant) rating function: the "grid"
@@ -103,11 +131,11 @@ GridObs(c) == {o \in Grid(c) : o.tot <= o.n * MaxLat /\ o.ec <= o.n}
 \* model instantiation of the property: every returned rating is compared with the grid (P); the grid compared with
 \* itself is the theorem "Rate is a monotone function of (error rate, latency)" (PG, evaluated once per configuration)
 P == INSTANCE S3HealthProps WITH
-       new <- (IF ret.is THEN {ret.o} ELSE {}), all <- GridObs(cfg), probe <- probe
+       new <- (IF ret.is THEN {ret.o} ELSE {}), all <- GridObs(cfg), probes <- {probe[i] : i \in DOMAIN probe}
 C25_FunctionOfWindow == P!C25_FunctionOfWindow
 C25_Monotone == P!C25_Monotone
 C25_Gate == P!C25_Gate
-PG == INSTANCE S3HealthProps WITH new <- GridObs(cfg), all <- GridObs(cfg), probe <- probe
+PG == INSTANCE S3HealthProps WITH new <- GridObs(cfg), all <- GridObs(cfg), probes <- {}
 C25_GridTheorem == (nops = 0) => (PG!C25_FunctionOfWindow /\ PG!C25_Monotone)
 \* internal facts (conformance level)
 StoredIsWindow == Trunc(samples, now) = PW!InWindow(recent, now, Window, MaxSamples)
